@@ -522,7 +522,7 @@ func (p *proxy) handleConnection(ctx context.Context, conn net.Conn) {
 			resp, err := p.handleGroupRouting(ctx, header, frame.Payload, pool)
 			if err != nil {
 				p.logger.Warn("group routing failed", "error", err)
-				p.respondBackendError(conn, header, frame.Payload)
+				p.respondBackendError(conn, header, body)
 				return
 			}
 			if err := protocol.WriteFrame(conn, resp); err != nil {
@@ -537,7 +537,7 @@ func (p *proxy) handleConnection(ctx context.Context, conn net.Conn) {
 			backendConn, backendAddr, err = p.connectBackend(ctx)
 			if err != nil {
 				p.logger.Error("backend connect failed", "error", err)
-				p.respondBackendError(conn, header, frame.Payload)
+				p.respondBackendError(conn, header, body)
 				return
 			}
 		}
@@ -548,13 +548,13 @@ func (p *proxy) handleConnection(ctx context.Context, conn net.Conn) {
 			backendConn, backendAddr, err = p.connectBackend(ctx)
 			if err != nil {
 				p.logger.Warn("backend reconnect failed", "error", err)
-				p.respondBackendError(conn, header, frame.Payload)
+				p.respondBackendError(conn, header, body)
 				return
 			}
 			resp, err = p.forwardToBackend(ctx, backendConn, backendAddr, frame.Payload)
 			if err != nil {
 				p.logger.Warn("backend forward failed", "error", err)
-				p.respondBackendError(conn, header, frame.Payload)
+				p.respondBackendError(conn, header, body)
 				return
 			}
 		}
